@@ -136,6 +136,59 @@ def run(R):
             for fn, fs in (("arr8", ("ct_eq", "ct_ne")), ("sl8", ("ct_eq", "ct_ne")), ("mac", ("eq", "ne"))) + ((("tag", ("eq", "ct_eq")),) if n == 16 else ()):
                 for f in fs:
                     add((fn, f, "cancel"), {"fn": fn, "f": f, "a": base, "b": o})
+    # operands at every pair of addresses modulo 8 (a word-at-a-time comparison that splits each operand by its own alignment), equal and
+    # differing in one byte; and at a few offsets modulo 64
+    for n in ((8, 9, 15, 16, 17, 24, 31, 32, 33, 40, 64) if thorough else (9, 16, 33, 40)):
+        base = vlib.prng_bytes(R.seed, "c18/place/%d" % n, n)
+        for oa in range(8):
+            for ob in range(8):
+                pos = (oa * 8 + ob) % n
+                o = list(base); o[pos] ^= 1 << (ob % 8)
+                o2 = list(base); o2[n - 1 - pos] ^= 0x80
+                for b_, same in ((list(base), True), (o, False), (o2, False)):
+                    for fn, fs in (("sl8", ("ct_eq", "ct_ne")), ("arr8", ("ct_eq", "ct_lt", "ct_ge"))):
+                        for f in fs:
+                            add((fn, f, "placed", same), {"fn": fn, "f": f, "a": base, "b": b_, "oa": oa, "ob": ob})
+        for oa, ob in ((0, 63), (60, 4), (17, 34), (1, 33)):
+            o = list(base); o[n // 2] ^= 4
+            for b_, same in ((list(base), True), (o, False)):
+                add(("sl8", "ct_eq", "placed", same), {"fn": "sl8", "f": "ct_eq", "a": base, "b": b_, "oa": oa, "ob": ob})
+    # order and equality by word classes: every word (of 1, 4, 8, 16 bytes) of the operand pair is drawn from a class (equal random / equal
+    # all-ones / equal zero / less / greater / zero vs all-ones / all-ones vs other / adjacent values / differing in the lowest or highest byte),
+    # all class combinations for two words and sampled ones for three to five: a borrow chain over words must handle a borrow
+    # arriving at a saturated or an equal word
+    def word_pair(w, cls):
+        top = (1 << (8 * w)) - 1
+        x = R.rng.randrange(1, top)
+        y = R.rng.randrange(1, top)
+        lo, hi = min(x, y), max(x, y)
+        if lo == hi:
+            hi = lo + 1
+        return {"eq": (x, x), "eq1": (top, top), "eq0": (0, 0), "lt": (lo, hi), "gt": (hi, lo), "0/1": (0, top), "1/0": (top, 0), "x/1": (x, top), "1/x": (top, x),
+                "x/0": (x, 0), "0/x": (0, x), "pred": (x - 1, x), "succ": (x, x - 1), "lowbyte": (x, x ^ 1), "highbyte": (x, x ^ (0x80 << (8 * (w - 1))))}[cls]
+    classes = ["eq", "eq1", "eq0", "lt", "gt", "0/1", "1/0", "x/1", "1/x", "x/0", "0/x", "pred", "succ", "lowbyte", "highbyte"]
+    import itertools
+    nwc = 0
+    for w in (8, 4, 1, 16):
+        for nw in (2, 3, 4, 5):
+            n = w * nw
+            if n > 40 and n not in (48, 64):
+                continue
+            combos = list(itertools.product(classes, repeat=nw))
+            if nw > 2:
+                combos = R.rng.sample(combos, 600 if thorough else 120)
+            for combo in combos:
+                a, b = [], []
+                for cls in combo:                          # most significant word first (the arrays are big-endian numbers)
+                    x, y = word_pair(w, cls)
+                    a += list(x.to_bytes(w, "big")); b += list(y.to_bytes(w, "big"))
+                for tail in ((), (7,)) if (n + 1 <= 40 and w == 8 and nw == 2) else ((),):         # a partial word after the full ones
+                    aa, bb = a + list(tail), b + list(tail)
+                    for f in ("ct_lt", "ct_ge", "ct_eq"):
+                        add(("arr8", f, "wordclass", w), {"fn": "arr8", "f": f, "a": aa, "b": bb})
+                        nwc += 1
+                    add(("sl8", "ct_eq", "wordclass", w), {"fn": "sl8", "f": "ct_eq", "a": aa, "b": bb})
+    R.extra["word_class_comparisons"] = nwc
     for n in (2, 3, 5, 8):
         words = [R.rng.getrandbits(64) for _ in range(n)]
         enc = lambda ws: [b for w in ws for b in le8(w)]
